@@ -1,8 +1,286 @@
-//! Engine `arena` (stub).
+//! Engine `arena` (C11): random operation histories against `naijascript::arena::Arena`
+//! (debug builds: the borrow-tracking wrapper; release: the bump arena itself) and the two
+//! process-wide scratch arenas, checked against a shadow model after every operation.
+//!
+//! Layout of this module: `arena/model.rs` (shadow model, fill patterns, operation encoding),
+//! `arena/world.rs` (executes one operation against the real arena and the model and compares),
+//! `arena/genr.rs` (state-dependent operation generator).
+
+mod genr;
+pub mod model;
+pub mod world;
+
+use std::collections::BTreeMap;
+
+use serde_json::{Value as J, json};
+
 use crate::Ctx;
+use crate::util::{self, Rng};
+use model::{CHUNK, Op};
+use world::{Cfg, Outcome, World};
+
+/// Where the operations of a history come from.
+pub enum Source<'a> {
+    Random { rng: Rng, left: usize, small: bool },
+    Replay { ops: &'a [Op], pos: usize },
+}
+
+/// Scratch capacity is a property of the process (the two scratch arenas are process-wide
+/// statics that keep their reservation), so it is derived from the run seed only.
+pub fn scratch_cap_for(ctx: &Ctx) -> usize {
+    if let Some(v) = ctx.opt("scratch-cap").and_then(|v| v.parse::<usize>().ok()) {
+        return v;
+    }
+    let chunks = [2usize, 3, 4, 8][(ctx.seed % 4) as usize];
+    chunks * CHUNK
+}
+
+pub fn case_cfg(rng: &mut Rng, small: bool, scratch_cap: usize) -> (Cfg, usize) {
+    let caps: &[usize] = if small { &[1, 2, 3, 4] } else { &[1, 2, 3, 4, 6, 8, 12, 16] };
+    // capacity as requested from Arena::new: sometimes not a multiple of the chunk size
+    let chunks = *rng.pick(caps);
+    let requested = match rng.below(4) {
+        0 => chunks * CHUNK - rng.usize(CHUNK), // in ((chunks-1)*CHUNK, chunks*CHUNK]: rounded up by the arena
+        1 if chunks == 1 && rng.chance(1, 4) => 0,
+        _ => chunks * CHUNK,
+    };
+    let nops = if small { 60 + rng.usize(60) } else { 50 + rng.usize(351) };
+    let reinit = rng.chance(1, 8);
+    (Cfg { requested_cap: requested, scratch_cap, small, reinit }, nops)
+}
+
+/// Runs one history. Returns the executed operations, the outcome and the world's statistics.
+pub fn run_history(cfg: &Cfg, mut src: Source<'_>) -> (Vec<Op>, Outcome, BTreeMap<&'static str, u64>, world::Flags) {
+    let mut executed: Vec<Op> = Vec::new();
+    let mut world = match World::new(cfg) {
+        Ok(w) => w,
+        Err(f) => return (executed, Outcome::Fail(f), BTreeMap::new(), world::Flags::default()),
+    };
+    let mut outcome = Outcome::Ok;
+    loop {
+        let op = match &mut src {
+            Source::Random { rng, left, small } => {
+                if *left == 0 {
+                    None
+                } else {
+                    *left -= 1;
+                    Some(genr::next_op(rng, &world, *small))
+                }
+            }
+            Source::Replay { ops, pos } => {
+                let o = ops.get(*pos).cloned();
+                *pos += 1;
+                o
+            }
+        };
+        let Some(op) = op else { break };
+        executed.push(op.clone());
+        match world.apply(&op) {
+            Ok(()) => {}
+            Err(f) => {
+                if f.recoverable {
+                    // known-defect class: record, resynchronise the model, keep going
+                    world.soft_failures.push(f);
+                    if let Err(f2) = world.resync_after_soft_failure() {
+                        outcome = Outcome::Fail(f2);
+                        break;
+                    }
+                } else {
+                    outcome = Outcome::Fail(f);
+                    break;
+                }
+            }
+        }
+    }
+    if matches!(outcome, Outcome::Ok) {
+        if let Err(f) = world.finish() {
+            outcome = Outcome::Fail(f);
+        }
+    }
+    let soft = std::mem::take(&mut world.soft_failures);
+    let stats = std::mem::take(&mut world.stats);
+    let flags = world.flags;
+    drop(world);
+    if matches!(outcome, Outcome::Ok) && !soft.is_empty() {
+        outcome = Outcome::Soft(soft);
+    } else if let Outcome::Fail(f) = outcome {
+        // keep the hard failure, mention soft ones in the detail
+        let mut f = f;
+        if !soft.is_empty() {
+            f.detail["soft_failures_before"] = json!(soft.iter().map(|s| s.sig.clone()).collect::<Vec<_>>());
+        }
+        outcome = Outcome::Fail(f);
+    }
+    (executed, outcome, stats, flags)
+}
+
+/// The operations up to and including the one a recoverable finding was raised at.
+fn trim_after(ops: &[Op], f: &world::Fail) -> Vec<Op> {
+    let n = f.detail.get("op_number").and_then(J::as_u64).map_or(ops.len(), |n| n as usize);
+    ops[..n.min(ops.len())].to_vec()
+}
+
+fn replay_json(cfg: &Cfg, seed: u64, idx: u64, ops: &[Op]) -> J {
+    json!({
+        "engine": "arena",
+        "seed": seed,
+        "idx": idx,
+        "requested_cap": cfg.requested_cap,
+        "scratch_cap": cfg.scratch_cap,
+        "small": cfg.small,
+        "reinit": cfg.reinit,
+        "ops": ops.iter().map(Op::to_json).collect::<Vec<_>>(),
+    })
+}
 
 pub fn run(ctx: &mut Ctx) {
-    let _ = ctx;
-    eprintln!("engine arena not implemented");
-    std::process::exit(2);
+    if let Some(path) = ctx.opt("replay-file").map(str::to_string) {
+        replay_file(ctx, &path);
+        return;
+    }
+    let small = ctx.opt_u64("small", 0) != 0;
+    let scratch_cap = scratch_cap_for(ctx);
+    world::init_scratch(scratch_cap);
+    let verbose = ctx.opt_u64("verbose", 0) != 0;
+    let mut soft_emitted: BTreeMap<String, u32> = BTreeMap::new();
+    for idx in ctx.indices() {
+        ctx.out.begin(idx);
+        ctx.out.evaluations += 1;
+        let mut rng = Rng::new(util::case_seed(ctx.seed, "arena", idx));
+        let (cfg, nops) = case_cfg(&mut rng, small, scratch_cap);
+        let res = util::guarded(|| run_history(&cfg, Source::Random { rng, left: nops, small }));
+        match res {
+            Err((msg, loc)) => {
+                // a panic that no operation expected: a debug_assert / assert inside the arena
+                // (or a harness bug). The history is not known here, the case is re-runnable
+                // from (seed, idx).
+                world::emergency_scratch_reset();
+                let sig = format!("arena|panic|{}|{}", util::normalise_msg(&msg), util::panic_site(&loc));
+                ctx.out.fail(
+                    idx,
+                    &sig,
+                    json!({"panic": msg, "at": loc}),
+                    json!({"engine": "arena", "seed": ctx.seed, "idx": idx, "requested_cap": cfg.requested_cap,
+                           "scratch_cap": cfg.scratch_cap, "small": cfg.small, "regenerate": true}),
+                );
+            }
+            Ok((ops, outcome, stats, flags)) => {
+                for (k, v) in &stats {
+                    ctx.out.tag_n(k, *v);
+                }
+                ctx.out.tag_n("ops.total", ops.len() as u64);
+                match outcome {
+                    Outcome::Ok => {}
+                    Outcome::Soft(list) => {
+                        // Recoverable (known-defect class) findings: the history went on after
+                        // them. Only the first few per worker carry a full replay, the rest are
+                        // counted, so that one defect cannot swamp the run.
+                        let mut seen = std::collections::BTreeSet::new();
+                        for f in list {
+                            if seen.insert(f.sig.clone()) {
+                                ctx.out.tag("finding.recoverable.histories");
+                                let n = soft_emitted.entry(f.sig.clone()).or_insert(0);
+                                if *n < 2 {
+                                    *n += 1;
+                                    ctx.out.fail(idx, &f.sig, f.detail.clone(), replay_json(&cfg, ctx.seed, idx, &trim_after(&ops, &f)));
+                                }
+                            }
+                        }
+                    }
+                    Outcome::Fail(f) => {
+                        if verbose {
+                            eprintln!("case {idx}: {} {}", f.sig, f.detail);
+                        }
+                        if f.sig == "arena|alloc_uninit_slice|end-overflow" {
+                            // known-defect class that cannot be continued (the offset is garbage):
+                            // same emission budget as the recoverable findings
+                            ctx.out.tag("finding.history_ended_by_known_defect_class");
+                            let n = soft_emitted.entry(f.sig.clone()).or_insert(0);
+                            if *n >= 2 {
+                                continue;
+                            }
+                            *n += 1;
+                        }
+                        ctx.out.fail(idx, &f.sig, f.detail.clone(), replay_json(&cfg, ctx.seed, idx, &ops));
+                        continue;
+                    }
+                }
+                if flags.commit_cross {
+                    ctx.out.tag("history.crosses_commit_boundary");
+                }
+                if flags.nontail_grow_after_reset {
+                    ctx.out.tag("history.non_tail_grow_after_reset");
+                }
+                if flags.recommit_after_decommit {
+                    ctx.out.tag("history.decommit_then_recommit");
+                }
+                if flags.scratch_depth_max >= 3 {
+                    ctx.out.tag("history.scratch_depth_ge3");
+                }
+                if flags.nontrivial() {
+                    let text = serde_json::to_string(&ops.iter().map(Op::to_json).collect::<Vec<_>>()).unwrap_or_default();
+                    let h = util::hash64(format!("{}|{}", cfg.requested_cap, text).as_bytes());
+                    ctx.out.nontrivial(h);
+                    ctx.out.sample(json!({
+                        "idx": idx,
+                        "requested_capacity": cfg.requested_cap,
+                        "operations": ops.len(),
+                        "first_operations": ops.iter().take(14).map(Op::to_json).collect::<Vec<_>>(),
+                    }));
+                }
+            }
+        }
+    }
+}
+
+/// `nsworker arena --replay-file F [--keep-stdout 1]`: re-runs one recorded history.
+fn replay_file(ctx: &mut Ctx, path: &str) {
+    let text = std::fs::read_to_string(path).expect("replay file");
+    let mut j: J = serde_json::from_str(&text).expect("replay json");
+    if j.get("replay").is_some() {
+        j = j["replay"].clone();
+    }
+    let scratch_cap = j["scratch_cap"].as_u64().unwrap_or(4 * CHUNK as u64) as usize;
+    let cfg = Cfg {
+        requested_cap: j["requested_cap"].as_u64().unwrap_or(CHUNK as u64) as usize,
+        scratch_cap,
+        small: j["small"].as_bool().unwrap_or(false),
+        reinit: j["reinit"].as_bool().unwrap_or(false),
+    };
+    world::init_scratch(scratch_cap);
+    let idx = j["idx"].as_u64().unwrap_or(0);
+    ctx.out.begin(idx);
+    ctx.out.evaluations += 1;
+    let res = if j["regenerate"].as_bool().unwrap_or(false) || j.get("ops").is_none() {
+        let seed = j["seed"].as_u64().unwrap_or(ctx.seed);
+        let mut rng = Rng::new(util::case_seed(seed, "arena", idx));
+        let (cfg2, nops) = case_cfg(&mut rng, cfg.small, scratch_cap);
+        util::guarded(|| run_history(&cfg2, Source::Random { rng, left: nops, small: cfg.small }))
+    } else {
+        let ops: Vec<Op> = j["ops"].as_array().map(|a| a.iter().filter_map(Op::from_json).collect()).unwrap_or_default();
+        util::guarded(|| run_history(&cfg, Source::Replay { ops: &ops, pos: 0 }))
+    };
+    match res {
+        Err((msg, loc)) => {
+            eprintln!("REPLAY arena: panic `{msg}` at {loc}");
+            ctx.out.fail(idx, &format!("arena|panic|{}|{}", util::normalise_msg(&msg), util::panic_site(&loc)), json!({"panic": msg, "at": loc}), j.clone());
+        }
+        Ok((ops, outcome, _, _)) => match outcome {
+            Outcome::Ok => eprintln!("REPLAY arena: {} operations, no violation", ops.len()),
+            Outcome::Soft(list) => {
+                for f in list {
+                    eprintln!("REPLAY arena: VIOLATION {} {}", f.sig, f.detail);
+                    ctx.out.fail(idx, &f.sig, f.detail, j.clone());
+                }
+            }
+            Outcome::Fail(f) => {
+                eprintln!("REPLAY arena: VIOLATION after {} operations: {} {}", ops.len(), f.sig, f.detail);
+                ctx.out.fail(idx, &f.sig, f.detail, j.clone());
+            }
+        },
+    }
+    if ctx.out.failures > 0 {
+        ctx.out.finish();
+        std::process::exit(1);
+    }
 }
